@@ -498,7 +498,23 @@ let emit tier cfgs seed =
     neg "corr" nm (cxx t) (mo <> None) (mk "etl");
     neg "specval" nm (cxx t) (so <> None) (mk "std"))
     (List.concat_map (fun t -> [ "make_signed", t; "make_unsigned", t ])
-       [ Arith ABool; Cv (true, false, Arith ABool); Arith AFloat; Ptr int_; Arith AChar; Class c_plain; Void ]);
+       (* (libstdc++ accepts make_signed<const bool>, which [meta.trans.sign] makes ill-formed: not listed) *)
+       [ Arith ABool; Arith AFloat; Ptr int_; Arith AChar; Class c_plain; Void; Arith ALDouble; Nullptr ]);
+  (* ---- [meta.logical]: values, short-circuit instantiation, base class *)
+  line [ "H"; "namespace z { struct novalue { }; }" ];
+  List.iter (fun (k, c) -> obl "prop" "logical" k c)
+    [ "conjunction values", "etl::conjunction_v<> && etl::conjunction_v<std::true_type> && !etl::conjunction_v<std::false_type> && etl::conjunction_v<std::true_type, std::true_type> && !etl::conjunction_v<std::true_type, std::false_type, std::true_type>";
+      "disjunction values", "!etl::disjunction_v<> && etl::disjunction_v<std::true_type> && !etl::disjunction_v<std::false_type> && etl::disjunction_v<std::false_type, std::true_type> && !etl::disjunction_v<std::false_type, std::false_type>";
+      "conjunction short-circuit", "!etl::conjunction_v<std::false_type, z::novalue> && !etl::conjunction<std::true_type, std::false_type, z::novalue>::value";
+      "disjunction short-circuit", "etl::disjunction_v<std::true_type, z::novalue> && etl::disjunction<std::false_type, std::true_type, z::novalue>::value";
+      "conjunction base", "std::is_base_of_v<std::integral_constant<int, 0>, etl::conjunction<std::integral_constant<int, 2>, std::integral_constant<int, 0>, std::integral_constant<int, 4>>> && std::is_base_of_v<std::integral_constant<int, 4>, etl::conjunction<std::integral_constant<int, 2>, std::integral_constant<int, 4>>>";
+      "disjunction base", "std::is_base_of_v<std::integral_constant<int, 2>, etl::disjunction<std::integral_constant<int, 0>, std::integral_constant<int, 2>, std::integral_constant<int, 4>>> && std::is_base_of_v<std::integral_constant<int, 0>, etl::disjunction<std::integral_constant<int, 0>, std::integral_constant<int, 0>>>";
+      "negation", "etl::negation_v<std::false_type> && !etl::negation_v<std::true_type> && !etl::negation<std::integral_constant<int, 3>>::value";
+      "bool_constant", "std::is_same_v<etl::true_type::value_type, bool> && etl::true_type::value && !etl::false_type{} && etl::bool_constant<true>{}() && std::is_same_v<etl::integral_constant<int, 3>::type, etl::integral_constant<int, 3>> && etl::integral_constant<long, 7>::value == 7";
+      "enable_if", "std::is_same_v<etl::enable_if_t<true, int>, int> && std::is_same_v<etl::enable_if_t<true>, void> && std::is_same_v<etl::void_t<int, char>, void>";
+      "aligned_storage", "sizeof(etl::aligned_storage_t<13, 4>) >= 13 && alignof(etl::aligned_storage_t<13, 4>) == 4 && alignof(etl::aligned_storage_t<16>) == alignof(std::aligned_storage_t<16>) && alignof(etl::aligned_storage_t<3>) == alignof(std::aligned_storage_t<3>) && alignof(etl::aligned_storage_t<1>) == alignof(std::aligned_storage_t<1>) && alignof(etl::aligned_storage_t<8>) == alignof(std::aligned_storage_t<8>)";
+      "aligned_union", "sizeof(etl::aligned_union_t<3, int, double>) >= 8 && alignof(etl::aligned_union_t<3, int, double>) == alignof(double) && etl::aligned_union<0, char, long double>::alignment_value == std::aligned_union<0, char, long double>::alignment_value && sizeof(etl::aligned_union_t<40, char>) >= 40";
+    ];
   print_string (Buffer.contents out)
 
 (* ------------------------------------------------------------------ run-time case protocol *)
